@@ -4,6 +4,7 @@ import (
 	"fmt"
 	"os"
 	"strconv"
+	"sync/atomic"
 	"time"
 
 	"verif/engine"
@@ -25,6 +26,7 @@ func freePass() {
 	total := 0
 	for _, sc := range scenarios(true) {
 		for i := 0; i < iters; i++ {
+			atomic.StoreInt64(&freeIter, int64(i))
 			c := engine.NewReplayChooser(nil)
 			var class, detail string
 			done := make(chan struct{})
